@@ -2,6 +2,6 @@ SPECIFICATION Spec
 CONSTANTS
  Parsers <- MC_Parsers
  Script <- MC_Script
- Variant = "local"
-INVARIANTS SameAsAlone TableRestored TableFinal
+ Variant = "global"
+INVARIANTS ExportBadSeen SameAsAlone
 CHECK_DEADLOCK FALSE
